@@ -18,6 +18,7 @@ import TypedpyModel.Drive.Errors
 import TypedpyModel.Drive.Sched
 import TypedpyModel.Drive.Pairs
 import TypedpyModel.Drive.Shortcut
+import TypedpyModel.Drive.Alias
 open Lean (Json)
 
 def dispatch (suite : String) (j : Json) : Except String Json :=
@@ -38,6 +39,7 @@ def dispatch (suite : String) (j : Json) : Except String Json :=
   | "sched" => Typedpy.Drive.Sched.run j
   | "pairs" => Typedpy.Drive.Pairs.run j
   | "shortcut" => Typedpy.Drive.Shortcut.run j
+  | "alias" => Typedpy.Drive.Alias.run j
   | s => .error s!"unknown suite {s}"
 
 def handle (line : String) : String :=
